@@ -7,7 +7,13 @@ Driver for E11 (C15).
 Flow records:   `auth st=… cimd=… pre=… dcr=… u=<url> hm=… ch=… hdr=… prm=… asm=… reg=… tok=… f=… [init=… sty=…]`
                 creates a NEW handler with that configuration and runs one `Authorize` round on it;
                 `again st=… u=<url> hm=… ch=… hdr=… prm=… asm=… reg=… tok=… f=… [sty=…]` runs ANOTHER round on the
-                handler of the case (same configuration; its own request URL, response and network).
+                handler of the case (same configuration; its own request URL, response and network);
+                `begin <as again>` STARTS a further `Authorize` call on the handler and leaves it in flight (observation
+                `parked` = it waits in the fetcher, `done` = it ended before), `end <k>` lets attempt `k` (numbered in
+                start order) return from the fetcher and finish (observation as for a round): any number of
+                attempts in flight, finished in any order; `auth`/`again` = `begin` + `end` at once.  In `f=R|<state>|<iss>`
+                the state is `g` (generated for this attempt), `s<k>` (generated for attempt `k`: one in flight or
+                finished) or `f`/`e` (forged / empty).
                 Observation `out=<outcome> inst=<0|1> cur=<i|k> log=<events>` (`Authorize` returning nil is `ok` both
                 for a completed flow and for the 403-without-insufficient_scope skip; `inst` = TokenSource()
                 changed in this round; `cur` = the round that installed the source now served, `i` = the
@@ -120,10 +126,17 @@ def parseMap {α} (f : String → Option α) (t : String) : Option (List (Url ×
     | [u, r] => do some (← parseUrl u, ← f r)
     | _ => none
 
-def parseFetch (t : String) : Option FetchAnswer :=
+/-- `R|<state>|<iss>`: state `g` = the one generated for THIS attempt (`own`), `s<k>` = the one generated for
+attempt `k` of the handler, anything else (`f` forged, `e` empty) = a value no attempt generated. -/
+def parseFetch (own : Nat) (t : String) : Option FetchV :=
   match t.splitOn "|" with
   | ["E"] => some .err
-  | ["R", st, iss] => do some (.result (st == "g") (← parseUrl iss))
+  | ["R", st, iss] => do
+    let sv : StateVal :=
+      if st == "g" then .gen own
+      else if st.startsWith "s" then (match (st.drop 1).toString.toNat? with | some k => .gen k | none => .foreign)
+      else .foreign
+    some (.result sv (← parseUrl iss))
   | _ => none
 
 def parseChallenge (t : String) : Option (Challenge × String) :=
@@ -137,6 +150,7 @@ def parseChallenge (t : String) : Option (Challenge × String) :=
 /-- A parsed flow record: the typed round the monitor reads (`m`), and the string-level extras. -/
 structure Case where
   m : MCase
+  fv : FetchV                          -- the fetcher's answer with the state VALUE (`m.tabs.fetch = fv.answer own`)
   hdr : Option (List String)           -- rendered header values (hex), for the parser cross-check
   chHex : List String
 
@@ -147,7 +161,7 @@ def kvs (toks : List String) : List (String × String) :=
     | _ => none
 
 /-- `over` = the configuration of the handler of the case (`again` records carry none of their own). -/
-def parseCase (over : Option HConfig) (toks : List String) : Option Case := do
+def parseCase (over : Option HConfig) (own : Nat) (toks : List String) : Option Case := do
   let m := kvs toks
   let get := fun k => m.lookup k
   let st ← get "st"
@@ -167,12 +181,12 @@ def parseCase (over : Option HConfig) (toks : List String) : Option Case := do
   let asmTab ← parseMap parseAsmResp (← get "asm")
   let regTab ← parseMap parseRegResp (← get "reg")
   let tokTab ← parseMap (fun s => (s.splitOn ",").mapM parseTokResp) (← get "tok")
-  let f ← parseFetch (← get "f")
+  let f ← parseFetch own (← get "f")
   let hdr : Option (List String) := (get "hdr").map fun h => if h == "." then [] else h.splitOn ","
   some { m := { cfg := hc.at u,
                 inp := { status403 := st == "403", headerMalformed := hm == "1", challenges := chs.map (·.1) },
-                tabs := { prm := prmTab, asm := asmTab, tok := tokTab, reg := regTab, fetch := f } },
-         hdr := hdr, chHex := chs.map (·.2) }
+                tabs := { prm := prmTab, asm := asmTab, tok := tokTab, reg := regTab, fetch := f.answer own } },
+         fv := f, hdr := hdr, chHex := chs.map (·.2) }
 
 /-! ### Observations -/
 
@@ -275,24 +289,51 @@ def hdrConsistent (c : Case) : Bool :=
            | "insufficient_scope" => ch.error == .insufficientScope
            | _ => ch.error == .other)
 
-/-- The state of a case: the model handler, and what the monitor remembers of the implementation's
-earlier rounds (issuers at which it registered dynamically). -/
+/-- The state of a case: the model handler with its attempts in flight (`CHandler`), the parsed record
+of every attempt in flight, and what the monitor remembers of the implementation's earlier rounds
+(issuers at which it registered dynamically). -/
 structure HState where
-  h : Handler
+  c : CHandler
+  cases : List (Nat × Case) := []
   dcrIssuers : List Url := []
 
+def Case.attempt (c : Case) : Attempt :=
+  { serverUrl := c.m.cfg.serverUrl, inp := c.m.inp, world := c.m.tabs.world, fetchV := fun _ => c.fv }
+
+def isFetchEv : Event → Bool
+  | .fetch _ _ _ => true
+  | _ => false
+
+/-- `start`: the attempt gets the next number; the observation says whether it reached the fetcher
+(`parked`) or ended before (`done`). -/
+def startStep (st : HState) (c : Case) : Option HState × String :=
+  if !hdrConsistent c then (some st, "model-header-mismatch") else
+  if !c.m.wf then (some st, "bad-op") else   -- outside the domain of `monitor_accepts_schedule`
+  let k := st.c.started
+  let c' := (st.c.step (.start c.attempt)).1
+  let r := attemptResult st.c.cfg k c.attempt
+  (some { st with c := c', cases := st.cases ++ [(k, c)] }, if r.log.any isFetchEv then "parked" else "done")
+
+/-- `finish k`: the model's result of attempt `k`, the C15 monitor on the IMPLEMENTATION's observation of it. -/
+def finishStep (st : HState) (k : Nat) (impl : String) : Option HState × Verdict :=
+  match st.cases.lookup k, st.c.step (.finish k) with
+  | some c, (c', some (_, r)) =>
+    let modelText := showResult r c'.served
+    -- run-time self-check of the string layer: the model's text parses back to the typed observation the
+    -- bridge theorems are about (`monitor_accepts_schedule` is a statement about `obsOf r`)
+    if parseObs modelText != some (obsOf r) then (some st, { model := "model-render-mismatch" }) else
+    let (viol, regd) := match parseObs impl with
+      | none => (some "C15: unparsable observation", [])
+      | some o => let (cl, regd) := monitor c.m st.dcrIssuers o; (cl.map Clause.text, regd)
+    (some { c := c', cases := st.cases.filter (fun p => p.1 != k), dcrIssuers := st.dcrIssuers ++ regd },
+     { model := modelText, violated := viol })
+  | _, _ => (some st, { model := "no-such-attempt" })
+
+/-- `auth` / `again`: `start` immediately followed by `finish` (`sequential_is_concurrent`). -/
 def roundStep (st : HState) (c : Case) (impl : String) : Option HState × Verdict :=
-  if !hdrConsistent c then (some st, { model := "model-header-mismatch" }) else
-  if !c.m.wf then (some st, { model := "bad-op" }) else   -- outside the domain of `monitor_accepts_model`
-  let (h', r) := st.h.authorize { serverUrl := c.m.cfg.serverUrl, inp := c.m.inp, world := c.m.tabs.world }
-  let modelText := showResult r h'.served
-  -- run-time self-check of the string layer: the model's text parses back to the typed observation the
-  -- bridge theorems are about (`monitor_accepts_model` is a statement about `obsOf r`)
-  if parseObs modelText != some (obsOf r) then (some st, { model := "model-render-mismatch" }) else
-  let (viol, regd) := match parseObs impl with
-    | none => (some "C15: unparsable observation", [])
-    | some o => let (cl, regd) := monitor c.m st.dcrIssuers o; (cl.map Clause.text, regd)
-  (some { h := h', dcrIssuers := st.dcrIssuers ++ regd }, { model := modelText, violated := viol })
+  match startStep st c with
+  | (some st', "parked") | (some st', "done") => finishStep st' st.c.started impl
+  | (st', e) => (st', { model := e })
 
 def engine : Engine (Option HState) where
   init := none
@@ -303,16 +344,27 @@ def engine : Engine (Option HState) where
     | ["wwwfuzz", _] =>
       (st, { model := fuzzOk, violated := if chkFuzz impl then some "C15: ParseWWWAuthenticate panics" else none })
     | "auth" :: rest =>
-      match parseCase none rest with
+      match parseCase none 0 rest with
       | none => (none, { model := "bad-op" })
-      | some c => roundStep { h := { cfg := { cimd := c.m.cfg.cimd, pre := c.m.cfg.pre, dcr := c.m.cfg.dcr } } } c impl
+      | some c => roundStep { c := { cfg := { cimd := c.m.cfg.cimd, pre := c.m.cfg.pre, dcr := c.m.cfg.dcr } } } c impl
     | "again" :: rest =>
       match st with
       | none => (none, { model := "no-handler" })
       | some hs =>
-        match parseCase (some hs.h.cfg) rest with
+        match parseCase (some hs.c.cfg) hs.c.started rest with
         | none => (st, { model := "bad-op" })
         | some c => roundStep hs c impl
+    | "begin" :: rest =>
+      match st with
+      | none => (none, { model := "no-handler" })
+      | some hs =>
+        match parseCase (some hs.c.cfg) hs.c.started rest with
+        | none => (st, { model := "bad-op" })
+        | some c => let (st', m) := startStep hs c; (st', { model := m })
+    | ["end", k] =>
+      match st, k.toNat? with
+      | some hs, some k => finishStep hs k impl
+      | _, _ => (st, { model := "bad-op" })
     | _ => (st, { model := "bad-op" })
 
 end OAuth
